@@ -258,18 +258,20 @@ def _d2_chain_form(F, b, defs, gs, dom, after):
         if not any(any(x == e or x in dom[e] for x in g["good"] + g["bad"]) for e in after):
             continue
         names_ = [hir.last(c[2]) for c in g["chain"]]
-        if "filter" not in names_ or not ({"find", "any", "find_map"} & set(names_)):
+        loop_form = "next" in names_ and not ({"find", "any", "find_map"} & set(names_))
+        if "filter" not in names_ or not (({"find", "any", "find_map"} & set(names_)) or loop_form):
             continue
         if "tarjan" not in names_ and not any("tarjan" in c[2] for c in g["chain"]):
             # the chain must start at the components
             pass
         if not ({"flatten", "flat_map"} & set(names_)):
             return "the members of a multi-item component are not enumerated (no flatten over the component): not every member is tested"
-        term_i = max(i for i, n in enumerate(names_) if n in ("find", "any", "find_map"))
+        term_i = max(i for i, n in enumerate(names_) if n in ("find", "any", "find_map", "next"))
         dropped = [n for i, n in enumerate(names_) if n in DROPPERS and i != term_i]
         if dropped:
             return "the chain that looks for a constant inside a cycle narrows its input with `%s`: not every member of every multi-item component is tested" % dropped[0]
-        size_ok = const_ok = False
+        size_ok = False
+        const_ok = loop_form     # `for name in components.iter().filter(..).flatten() { if is_constant(name) { return Err } }`: the body decides
         for c in g["chain"]:
             t = b.blocks[c[0]]["term"]
             nm = hir.last(c[2])
